@@ -474,6 +474,26 @@ def h_r1(p: Project, rep: Report):
                     start_n = x.id
                 elif any(d.kind == "unpack" and d.index == 1 and isinstance(d.value, ast.Call) and text(d.value.func) == "OFXHeaderV1.parse" for d in ds):
                     off_n = x.id
+        # start position derived as `<src>.tell() - len(<something>)`: right only if <something> is the bytes as read;
+        # the decoded line encoded AGAIN is not - the read-ahead decoder replaces each undefined byte by U+FFFD, which
+        # encodes to three bytes, so every non-ASCII byte on the line moves the position two bytes too far back
+        reenc = None
+        for x in names:
+            if isinstance(x, ast.Name):
+                for d in defs.get(x.id, []):
+                    v_ = d.value if d.kind == "assign" and isinstance(d.value, ast.AST) else None
+                    if isinstance(v_, ast.BinOp) and isinstance(v_.op, ast.Sub) and text(v_.left) == f"{src}.tell()" and isinstance(v_.right, ast.Call) and text(v_.right.func) == "len" and len(v_.right.args) == 1:
+                        e_ = hx.x(v_.right.args[0])
+                        if isinstance(e_, ast.Call) and isinstance(e_.func, ast.Attribute) and e_.func.attr == "encode":
+                            inner = decode_info(hx.x(e_.func.value), src)
+                            enc_args = [a.value for a in e_.args if isinstance(a, ast.Constant)]
+                            same_codec = inner is not None and enc_args[:1] == [inner[1]]
+                            lossless = inner is not None and inner[1] in ("latin-1", "latin1", "iso-8859-1", "iso8859-1", "cp437") and same_codec
+                            if inner is not None and not lossless:
+                                reenc = (d, text(v_), inner)
+        if reenc is not None:
+            rep.check("H-R1", "parse_header:header_start-from-bytes-read", False, f"the start position is computed as {reenc[1]}: the line was decoded with {reenc[2][1]}/{reenc[2][2]} and is measured after encoding it again - a byte the codec does not define comes back as U+FFFD (three bytes in UTF-8), so for a header line that runs on into a non-ASCII body (fields separated by a bare CR or by nothing) the position is too small and the body starts with the tail of the header", hloc(p, reenc[0].stmt))
+            continue
         if rel_len_of is None and off_n is not None and start_n is None and any(isinstance(x, ast.Name) and any(d.kind == "unpack" or (d.kind == "assign" and isinstance(d.value, ast.Call) and "tell" not in text(d.value)) for d in defs.get(x.id, [])) for x in names):
             raise AnalysisError("H-R1: the start position is computed by a helper that could not be inlined")
         if rel_len_of is not None and off_n is not None:
@@ -501,6 +521,27 @@ def h_r1(p: Project, rep: Report):
                     v = text(hx.x(d.stmt.value))  # bytes bound to a local first: `raw = src.readline(); R += raw.decode(..)`
                     good = isinstance(d.stmt.op, ast.Add) and _is_chunk(v, src)
                     rep.check("H-R1", "parse_header:rawheader-extended-with-lines-as-read", good, f"the raw header is extended with {v}" if not good else "", hloc(p, d.stmt))
+                    # ... and with EVERY line read: the read and the append are not separated by an exit from the iteration,
+                    # and the append is not conditional - a line consumed from the source but left out of R (one that
+                    # already holds the first body tag, say) takes the last header field with it
+                    lp_ = parent(d.stmt)
+                    cond_ = None
+                    while lp_ is not None and not isinstance(lp_, (ast.For, ast.While, ast.FunctionDef)):
+                        if isinstance(lp_, ast.If):
+                            cond_ = lp_
+                        lp_ = parent(lp_)
+                    if isinstance(lp_, (ast.For, ast.While)):
+                        reads_ = [st_ for st_ in lp_.body if any(isinstance(c_, ast.Call) and isinstance(c_.func, ast.Attribute) and c_.func.attr in ("readline", "read") and text(c_.func.value) == src for c_ in ast.walk(st_))]
+                        dropped = None
+                        if cond_ is not None and reads_ and not any(z is d.stmt for z in ast.walk(reads_[0])):
+                            dropped = f"the append is conditional on `{text(cond_.test)[:40]}`"
+                        if reads_ and d.stmt in lp_.body and reads_[0] in lp_.body:
+                            i0, i1 = lp_.body.index(reads_[0]), lp_.body.index(d.stmt)
+                            for st_ in lp_.body[i0:i1]:
+                                for z in ast.walk(st_):
+                                    if isinstance(z, (ast.Break, ast.Continue, ast.Return)):
+                                        dropped = f"`{type(z).__name__.lower()}` at line {z.lineno} leaves the iteration after the line was read and before it is appended"
+                        rep.check("H-R1", "parse_header:every-line-read-is-in-the-raw-header", dropped is None, f"{dropped}: a line consumed from the source is missing from the text the header is matched in - with the body glued to the last header field (NEWFILEUID:NONE<OFX>) that field is lost and a tolerated layout is refused" if dropped else "", hloc(p, d.stmt))
                 else:
                     raise AnalysisError(f"H-R1: raw header bound by {d.kind}")
         else:
